@@ -169,6 +169,8 @@ def neighbourhood(name, cfg, lg, i, n):
 def variants(name, cfg, lg):
     """yield (relation label, transformed logical, expectation kind, payload)"""
     rel = T[name]["rel"]
+    if lg.get("long"):
+        rel = tuple(r for r in rel if r != "local")
     if "voff" in rel:
         for c in VOFF:
             yield f"value-offset{c:+g}", dict(lg, x=sym_add(lg["x"], c)), "same", None
@@ -281,7 +283,7 @@ def run_task(task, acc):
     name, ci, first, n = task
     spec = T[name]
     if ci < 0:
-        series = [[]]
+        series = [[], alpha.debruijn(tuple(spec["al"]), 3) * 3]
         cfgs = spec["cfgs"]
     else:
         series = ([spec["al"][first], *rest] for k in range(1, n + 1) for rest in itertools.product(spec["al"], repeat=k - 1))
@@ -292,6 +294,8 @@ def run_task(task, acc):
           variants_.append((None, "ma"))
       for step, carrier in variants_:
         lg = logical(name, list(x), step)
+        if len(x) > 20:
+            lg["long"] = True
         if carrier:
             lg["carrier"] = carrier
             # the payload hidden under each masked slot: the nearest present value of the BASE series (so the base
